@@ -4,14 +4,16 @@ package main
 //
 //	{Kind: "func", Name: "Recv.Method" | "Func"}
 //	{Kind: "var", Name: "table"}                      package-level table with constant elements
+//	{Kind: "methodset", Name: "crc16", Methods: "Write Sum16 …"}   the type has exactly these methods
 //	{Kind: "block", Name: <Lean name>, Func: "Recv.Method", Anchor: "d.lastTimeOffset", Occur: n, Up: k}
 type Item struct {
-	Kind   string
-	Name   string
-	Func   string
-	Anchor string
-	Occur  int // 0: the anchor must be unique in the function; n ≥ 1: the n-th statement (source order) assigning to it
-	Up     int // go this many statement lists outwards from the anchor before taking the run
+	Kind    string
+	Name    string
+	Func    string
+	Anchor  string
+	Occur   int    // 0: the anchor must be unique in the function; n ≥ 1: the n-th statement (source order) assigning to it
+	Up      int    // go this many statement lists outwards from the anchor before taking the run
+	Methods string // methodset: the space-separated names of ALL methods of type Name (each translated by a func item)
 }
 
 // Unit: one Go package → lean/FitModel/Generated/Go_<Name>.lean (namespace Go.<Name>)
@@ -31,6 +33,7 @@ var units = []Unit{
 		{Kind: "func", Name: "crc16.Reset"},
 		{Kind: "func", Name: "crc16.Size"},
 		{Kind: "func", Name: "crc16.BlockSize"},
+		{Kind: "methodset", Name: "crc16", Methods: "Write compute Sum16 Sum Reset Size BlockSize"},
 	}},
 	{Name: "basetype", Dir: "profile/basetype", Items: []Item{
 		{Kind: "var", Name: "sizes"},
